@@ -337,7 +337,8 @@ def history_sig(op):
         return "ompbuild:%s" % op["kernel"]
     if op.get("op") == "vario_dirs":
         return "vario_dirs:%d:%d:%s:%s%s" % (op["dim"], len(op["angles_deg"]), op["tol_deg"],
-                                            op.get("masked", ""), "L" if op.get("latlon") else "")
+                                            op.get("masked", ""), "L" if op.get("latlon") else
+                                            ("G" if op.get("grid") else ""))
     if op.get("op") == "wrapper":
         s = op["size"]
         return "wrapper:%s:%d:%d:%d:%s" % (op["kernel"], s["dim"], min(s["n"], 50) // 5,
@@ -408,7 +409,10 @@ class Machine:
                         "angles_deg": [], "tol_deg": 0,
                         "est": rng.choice(["matheron", "cressie"])}
             return {"op": "vario_dirs", "masked": "axis", "dim": 2, "n": rng.randint(3, 9),
-                    "m": rng.randint(1, 5), "no_data": rng.choice([None, -9999.0]),
+                    "m": rng.randint(1, 5), "l": rng.choice([None, None, 2, 3]),
+                    "axis": rng.choice([0, 0, 1, 2]), "axis_by_name": rng.random() < 0.6,
+                    "layouts": rng.choice(["CC", "CC", "CF", "FC", "FF"]),
+                    "no_data": rng.choice([None, -9999.0]),
                     "vseed": rng.randint(0, 2 ** 31), "angles_deg": [], "tol_deg": 0,
                     "est": rng.choice(["matheron", "cressie"])}
         if r > 0.97:
@@ -416,6 +420,18 @@ class Machine:
                     "bins": rng.randint(1, 4), "vseed": rng.randint(0, 2 ** 31),
                     "geo_scale": rng.choice([6371.0, 57.29577951308232, 1.0]),
                     "angles_deg": [], "tol_deg": 0,
+                    "est": rng.choice(["matheron", "cressie"])}
+        if r > 0.93 and rng.random() < 0.3:
+            # lattice points and axis directions: pairs exactly perpendicular to a direction sit
+            # exactly on the (strict) angle criterion when the tolerance is pi/2
+            dim = rng.choice([2, 2, 3])
+            return {"op": "vario_dirs", "grid": True, "dim": dim, "n": rng.randint(4, 16),
+                    "bins": rng.randint(1, 4), "vseed": rng.randint(0, 2 ** 31),
+                    "angles_deg": sorted(rng.sample(range(dim), rng.randint(1, dim))),
+                    # (no 45: lattice diagonals would sit on a criterion that is decided by
+                    # rounding; at 90 the boundary pairs have a scalar product of exactly 0)
+                    "tol_deg": rng.choice([90, 90, 30, 120]),
+                    "bw": rng.choice([None, None, None, 1.5]),
                     "est": rng.choice(["matheron", "cressie"])}
         if r > 0.93:
             return {"op": "vario_dirs", "dim": rng.choice([2, 2, 3]), "n": rng.randint(4, 25),
@@ -624,12 +640,20 @@ class Machine:
             got_v, got_c = np.asarray(res[1]), np.asarray(res[2])
             name = "vario_estimate_stacked_masks"
         else:
-            shape = (op["n"], op["m"])
+            shape = (op["n"], op["m"]) + ((op["l"],) if op.get("l") else ())
             data = _vals(rs, shape)
-            mask = np.array([[rs.random() < 0.25 for _ in range(shape[1])]
-                             for _ in range(shape[0])])
-            miss = np.array([[rs.random() < 0.2 for _ in range(shape[1])]
-                             for _ in range(shape[0])]) & ~mask
+            cells = int(np.prod(shape))
+            mask = np.array([rs.random() < 0.25 for _ in range(cells)]).reshape(shape)
+            miss = np.array([rs.random() < 0.2 for _ in range(cells)]).reshape(shape) & ~mask
+            # data and mask need not share a memory layout (e.g. a transposed file + fresh mask)
+            lay = op.get("layouts", "CC")
+            if lay[0] == "F":
+                data = np.asfortranarray(data)
+            if lay[1] == "F":
+                mask = np.asfortranarray(mask)
+            ax = op.get("axis", 0)
+            if ax >= len(shape):
+                raise Inapplicable("no such axis")
             marker = op.get("no_data")
             kw = {}
             if marker is None:
@@ -638,9 +662,10 @@ class Machine:
                 data[miss] = marker
                 kw["no_data"] = marker
             field = np.ma.array(data, mask=mask)
-            res = gs.vario_estimate_axis(field, direction="x", estimator=est, **kw)
-            comb = (mask | miss).astype(np.uint8)
-            clean = np.where(mask | miss, 0.0, data)
+            direction = ("xyz"[ax] if op.get("axis_by_name", True) else ax)
+            res = gs.vario_estimate_axis(field, direction=direction, estimator=est, **kw)
+            comb = np.moveaxis((mask | miss).astype(np.uint8), ax, 0).reshape(shape[ax], -1)
+            clean = np.moveaxis(np.where(mask | miss, 0.0, data), ax, 0).reshape(shape[ax], -1)
             ref = defining("ma_structured", [clean, comb], {"estimator_type": est[0]})
             got_v, got_c = np.asarray(res), None
             ref = (ref[0], None)
@@ -666,14 +691,20 @@ class Machine:
         f = _vals(rs, (1, n))
         edges = np.linspace(0.0, 7.0, op["bins"] + 1)
         ang = [a for a in op["angles_deg"]]
-        if dim == 2:
+        if op.get("grid"):
+            lattice = [(i, j, k) for i in range(4) for j in range(4) for k in range(3)]
+            pts = rs.sample(lattice, min(n, len(lattice)))
+            pos = np.array(pts, dtype=np.double).T[:dim]
+            f = _vals(rs, (1, pos.shape[1]))
+            dirs = np.eye(dim)[[a for a in ang if 0 <= a < dim] or [0]]
+        elif dim == 2:
             dirs = np.array([[math.cos(math.radians(a)), math.sin(math.radians(a))]
                              for a in ang])
         else:
             dirs = np.array([[math.cos(math.radians(a)), math.sin(math.radians(a)),
                               0.3 * ((i % 3) - 1)] for i, a in enumerate(ang)])
             dirs /= np.linalg.norm(dirs, axis=1)[:, None]
-        tol = math.radians(op["tol_deg"])
+        tol = np.pi / 2 if op["tol_deg"] == 90 else math.radians(op["tol_deg"])
         bw = op.get("bw")
         res = gs.vario_estimate(pos, f[0], bin_edges=edges, direction=dirs, angles_tol=tol,
                                 bandwidth=bw, return_counts=True, estimator=op["est"])
@@ -684,6 +715,18 @@ class Machine:
         self.ctx.probe("wrapper.vario_estimate_directions")
         got_v, got_c = np.atleast_2d(res[1]), np.atleast_2d(res[2])
         if not np.array_equal(got_c, ref[1]) or not close(got_v, ref[0], rtol=1e-10):
+            # classify: coincident points (distance 0) belong to every direction, but when the
+            # direction bands are disjoint the estimator is told so (separate_dirs) and stops at
+            # the first direction that takes a pair
+            dup = pos.shape[1] != len({tuple(c) for c in pos.T.tolist()})
+            if dup and dirs.shape[0] > 1:
+                ref2 = defining("directional", [f, edges, pos, dirs],
+                                dict(kw, separate_dirs=True))
+                if np.array_equal(got_c, ref2[1]) and close(got_v, ref2[0], rtol=1e-10):
+                    raise Violation(
+                        "C15.defining_sums.vario_estimate_directional.coincident_points",
+                        angles_deg=ang, tol_deg=op["tol_deg"], counts=got_c.tolist(),
+                        want=ref[1].tolist())
             raise Violation("C15.defining_sums.vario_estimate_directional",
                             angles_deg=ang, tol_deg=op["tol_deg"], counts=got_c.tolist(),
                             want=ref[1].tolist())
